@@ -7,6 +7,7 @@ import (
 	"go/types"
 	"sort"
 	"strings"
+	"time"
 
 	"golang.org/x/tools/go/ssa"
 
@@ -63,6 +64,7 @@ type Config struct {
 	MaxDepth  int
 	MaxInline int
 	MaxLP     int                 // entailment-query budget per root (0: default 150000)
+	Deadline  time.Time           // wall-clock limit of this run (zero: none); only set for escalated re-runs, exceeding it is an R-depth failure
 	TableLens map[string]int64    // global slice name → length
 	TableRng  map[string][2]int64 // global int table → value range
 	TableVals map[string][]int64  // global byte/int table → contents (from E2)
